@@ -363,7 +363,7 @@ func (ex *Exec) applyContract(fr *Frame, st *State, fc *FuncContract, names []st
 		env := mkEnv(post, pre)
 		bindResults(env, rvals, rnames)
 		ex.cx.assume(implies(post.reach, env.evalBool(cl.Expr)))
-		if containsQuant(cl.Expr) {
+		if clauseHasQuant(ex, cl.Expr) {
 			cl, postSt := cl, post.clone()
 			ex.qhyps = append(ex.qhyps, qhyp{guard: post.reach, inst: func(sk map[string]SVal) (Term, bool) {
 				henv := mkEnv(postSt, pre)
